@@ -227,6 +227,7 @@ func (Prop) Run(c *engine.Ctx) {
 	runEncXorProduct(c)
 	runEncModes(c)
 	runSign(c)
+	runSignShapes(c)
 	runStar(c)
 	runKX(c)
 	runSerial(c)
